@@ -13,6 +13,7 @@ EXPLANATION = (
     "keep validate_exp = true, keep \"exp\" in required_spec_claims, keep leeway <= 60 and reject_tokens_expiring_in_less_than = 0, and have validate_nbf = true written on every path before the call; "
     "the decode's failure must lead away from every Ok exit. Cargo.lock must pin jsonwebtoken 9.x, whose Validation::new defaults (validate_exp, required {exp}, leeway 60, validate_nbf false) the rule was written against. "
     "The comparison with the wall clock itself is jsonwebtoken's and is trusted."
+    " A public constructor that `new` merely delegates to (`new(..) = new_with(.., DEFAULT)`) is judged as part of new's view with new's arguments; numeric settings are evaluated through struct fields and min / max of constants."
 )
 ASSUMPTIONS = [
     "jsonwebtoken 9.x `Validation::new` defaults and `validate()` semantics as read in its source (exp required and checked with leeway; nbf checked only if validate_nbf)",
